@@ -35,6 +35,15 @@
        time-out  => nondeterministic event [ETimeout]; the client transport that is dropped in
        the same frame in which RenetClient::disconnect() was called never sends that packet.
 
+   Replayed on the real code with the protocol harness (2 and 3 processes, 2026-09-30):
+     - "PEERS 3; setup x3; ROUND 10; OP 0 promote 1; ROUND 30" ends in the state of [s8_as_observed]
+       (PromotionProofs.v): old host still hosting, flag consumed by verify_client_connected (no
+       RequestInitialSync from 0), peer 2 ClientState Connected / RenetClient disconnected / flag set;
+     - "PEERS 2; setup x2; ROUND 8; OP 0 promote 1; ROUND 20; OP 1 promote 0; ROUND 30": the first
+       hand-over succeeds and leaves peer 1's RenetClient `disconnected` (the kick); the second one ends
+       exactly in [chain_broken]: 0 hosts nobody with its flag stuck and a stale client transport,
+       1 has closed its server and stays in ClientState::Connecting for ever.
+
    Everything is executable. *)
 From Coq Require Import NArith List Lia.
 From stdpp Require Import gmap list.
@@ -503,11 +512,20 @@ Definition chain_brokenb (s : pstate) (h k : peer) : bool :=
 (* the goal of a promotion of k: one host, everybody else its connected client *)
 Definition session_ok (s : pstate) (k : peer) : Prop :=
   hosts s = [k] /\
-  forall p x, ps s !! p = Some x -> p <> k ->
-    client_of x = Some k /\ link_up x = true /\ cli_state x = CConnected /\ flag x = false.
+  map_Forall (fun p x => p <> k ->
+    client_of x = Some k /\ link_up x = true /\ cli_state x = CConnected /\ flag x = false /\
+    hosting x = false /\ srv_state x = SDisconnected) (ps s).
+Global Instance session_ok_dec s k : Decision (session_ok s k).
+Proof. unfold session_ok. apply _. Defined.
 (* full statement of C07 for n clients (true for n = 1, refuted for n = 2) *)
 Definition C07_statement (n : nat) (k : peer) : Prop :=
   forall tr s, all_internal tr -> run (promoted n k) tr = Some s -> stable s -> session_ok s k.
+
+(* full statement for a chain of two promotions in a two-peer session (refuted: see
+   C07_chain_of_promotions for what does hold) *)
+Definition C07_chain_statement : Prop :=
+  forall tr F, all_internal tr -> run (promoted 1 1%N) tr = Some F -> stable F ->
+  forall tr' s, all_internal tr' -> run (promote_in F 1%N 0%N) tr' = Some s -> stable s -> handed_over s 0%N 1%N.
 
 (* S8, as seen in a 3-peer session after the promotion of 1: 0 has moved over to 1, 2 is stranded *)
 Definition s8_outcome (s : pstate) : Prop :=
@@ -523,6 +541,10 @@ Definition s8_outcomeb (s : pstate) : bool :=
         client_of x0 = Some 1%N /\ link_up x0 = true /\ cli_state x0 = CConnected /\ flag x0 = false /\ clients x0 = [])
   | _, _, _ => false
   end.
+
+(* a field of a peer, with a default for peers that do not exist *)
+Definition pget {A} (f : ppeer -> A) (d : A) (s : pstate) (p : peer) : A :=
+  match ps s !! p with Some x => f x | None => d end.
 
 (* ---------- invariants (proved in PromotionProofs.v for sessions of any size) -------------------- *)
 
@@ -544,6 +566,45 @@ Definition roles_inv (s : pstate) : Prop :=
    ClientDisconnected can close the server) *)
 Definition window (x : ppeer) : Prop :=
   flag x = true -> (srv_events x = [] /\ clients x = []) \/ (exists c q, srv_events x = (true, c) :: q).
+
+(* p handles a promotion message in event e *)
+Definition handles_promo_msg (s : pstate) (e : pevent) (p : peer) : Prop :=
+  (exists c q, e = EDeliverUp c p /\ head (chan (up s) c p) = Some (NewHost q)) \/
+  (exists h, e = EDeliverDown h p /\ head (chan (down s) h p) <> Some ReqInit).
+Fixpoint quiet_for (p : peer) (s : pstate) (tr : list pevent) : Prop :=
+  match tr with
+  | [] => True
+  | e :: tr => ~ handles_promo_msg s e p /\ match step s e with Some s' => quiet_for p s' tr | None => True end
+  end.
+
+(* --- one promotion (of k, by host 0) in a session of any size: what holds at every point ------ *)
+
+(* c is still an ordinary, connected client of the old host *)
+Definition untouched (s : pstate) (c : peer) (x : ppeer) : Prop :=
+  hosting x = false /\ client_of x = Some host /\ link_up x = true /\ cli_state x = CConnected /\
+  cli_removed x = false /\
+  exists x0, ps s !! host = Some x0 /\ hosting x0 = true /\ c ∈ clients x0.
+
+Definition spi (k : peer) (s : pstate) : Prop :=
+  k <> host /\
+  (* at most two peers host: the old host and the promoted peer *)
+  (forall p x, ps s !! p = Some x -> hosting x = true -> p = host \/ p = k) /\
+  (forall p x, ps s !! p = Some x -> srv_added x = true -> p = k) /\
+  (* the only client transports: k -> 0 (old), 0 -> k (new), others -> 0 or k *)
+  (forall x h, ps s !! k = Some x -> client_of x = Some h -> h = host) /\
+  (forall x h, ps s !! host = Some x -> client_of x = Some h -> h = k) /\
+  (* traffic: only the old host sends downstream: NewHost(k) to the other clients, and the one
+     Promote to k, which is in flight exactly as long as k has no server transport *)
+  (forall h c m, m ∈ chan (down s) h c ->
+     h = host /\ ((m = NewHost k /\ c <> k /\ c <> host) \/
+                  (m = Promote /\ c = k /\ chan (down s) host k = [Promote] /\ pget hosting true s k = false))) /\
+  (forall c h m, m ∈ chan (up s) c h -> m = ReqInit \/ (m = NewHost k /\ c = k /\ h = host)) /\
+  (* S8 for every n: a client other than k is either still an ordinary client of 0, or stranded *)
+  (forall c x, ps s !! c = Some x -> c <> host -> c <> k ->
+     untouched s c x \/ (stranded x /\ client_of x = Some k /\ flag x = true)) /\
+  (* the promoted peer: window while its flag is set; nobody but the old host ever joins it *)
+  (forall x, ps s !! k = Some x -> hosting x = true -> window x) /\
+  (forall x c, ps s !! k = Some x -> c ∈ clients x -> c = host).
 
 (* ---------- example runs ---------------------------------------------------------------------------- *)
 Local Open Scope N_scope.
